@@ -252,7 +252,7 @@ def check(ctx, rep):
         sets = [e for e in p.calls() if q.call_name(e) == "set" and q.recv(e) == ("attr", SELF, "_poll_event")]
         rep.ob("R-WAKE-P", "notify() sets the poll event", len(sets) == 1, "", where_of(nt))
     loops = [l for l in wake.discover(ctx) if l.owner is pex]
-    wake.check_loops(ctx, rep, loops)
+    wake.check_loops(ctx, rep, loops, components="state")
     wake.check_producers(ctx, rep, loops)
 
 
